@@ -79,16 +79,19 @@ Theorem C07_no_reappear_no_vanish : forall R A B R' k,
 Proof. exact veq_absent. Qed.
 Print Assumptions C07_no_reappear_no_vanish.
 
-(* C07_borders. Full statement: for every configuration whose skipped prefixes are under prefix/ and pairwise
-   non-nested (hence duplicate-free), the ranges of getCompactBorders are exactly the keys in charge *)
-Definition C07_borders_full_statement : Prop :=
-  forall p sk k, alpha p -> Forall alpha sk -> alpha k -> last_is slash p = false ->
+(* C07_borders: for every configuration whose skipped prefixes are under prefix/ and pairwise non-nested (hence
+   duplicate-free) - any number of them, in any order, including a prefix that is a string prefix of another
+   followed by a byte below '/' - the border pairs of getCompactBorders cover exactly the keys in charge
+   (under prefix/, under no skipped prefix). With C07_pass_all_ranges: no record outside is deleted.
+   Nested / duplicated / not-under-prefix configurations refute the unrestricted statement (Examples C07_borders_refuted_nested, _duplicate) *)
+Theorem C07_borders : forall p sk k,
+  alpha p -> Forall alpha sk -> alpha k -> last_is slash p = false ->
   Forall (fun s => last_is slash s = false) sk -> good_config p sk = true ->
   existsb (fun lh => bleb (fst lh) k && bltb k (snd lh)) (ranges_of p sk) = in_charge p sk k.
+Proof. exact borders_general. Qed.
+Print Assumptions C07_borders.
 
-(* proved for the configurations with no and with one skipped prefix (the general case is checked on every
-   run by borders_oracle on the real getCompactBorders; nested / duplicated / not-under-prefix configurations
-   refute the unrestricted statement, see C07_borders_refuted_* below) *)
+(* the shape of the ranges for no and for one skipped prefix *)
 Theorem C07_borders_none_partial : forall p k,
   alpha p -> alpha k -> last_is slash p = false ->
   ranges_of p [] = [(p ++ [47], p ++ [48])] /\
@@ -264,6 +267,14 @@ Example C07_order_needed :
   premiseb 105 exV (RVer ka 103 tombstone) = false /\
   get_at (del_slot (RVer ka 103 tombstone) exV) 105 ka = Some (102, [2]).
 Proof. vm_compute. split; reflexivity. Qed.
+
+(* {/r/pods, /r/pods.archive, /r/s}: string order and key-range order differ, the configuration is good *)
+Example C07_ex_borders_dot_hyps :
+  let sk := [[47;114;47;112;111;100;115]; [47;114;47;112;111;100;115;46;97]; Ps] in
+  good_config P sk = true /\ Forall alpha sk /\ Forall (fun s => last_is slash s = false) sk /\
+  ranges_of P sk = [([47;114;47], [47;114;47;112;111;100;115;46;97;47]); ([47;114;47;112;111;100;115;46;97;48], [47;114;47;112;111;100;115;47]);
+                    ([47;114;47;112;111;100;115;48], [47;114;47;115;47]); ([47;114;47;115;48], [47;114;48])].
+Proof. cbv zeta. split; [vm_compute; reflexivity|]. split; [repeat constructor|]. split; [repeat constructor|vm_compute; reflexivity]. Qed.
 
 Example C07_ex_borders_one_hyps :
   alpha P /\ alpha [115] /\ last_is slash P = false /\ last_is slash (P ++ [47] ++ [115]) = false /\
